@@ -848,7 +848,9 @@ def mixed_corpus():
 
 
 def gen(rng, tier):
-    n = 90 if tier == 'quick' else 1500
+    import random
+    n = 78 if tier == 'quick' else 1400
+    rng_mixed = random.Random(rng.getrandbits(64))      # the two families draw from streams of their own (both determined by the seed)
     cases = []
     for _ in range(n):
         clauses, queries, dyn = gen_base(rng)
@@ -880,8 +882,8 @@ def gen(rng, tier):
                 specs[(i + 1) % len(specs)]['exc'] = rng.choice(EXC_CLASSES)
             cases.append({'clauses': clauses, 'queries': queries, 'dyn': dt, 'native': specs})
     # one predicate defined from mixed sources (register_function / load_script overwrite or not / assert_fact in every order)
-    for _ in range(70 if tier == 'quick' else 1000):
-        cases.append(gen_mixed(rng))
+    for _ in range(60 if tier == 'quick' else 1000):
+        cases.append(gen_mixed(rng_mixed))
     return cases
 
 def builtin_corpus():
